@@ -32,8 +32,9 @@ pub enum Cmd {
     Exit(Option<u32>),
     SetE(bool),
     SetM(bool),
-    /// no command name: (status of the last command substitution in the words, in the assignments)
-    Absent(Option<u32>, Option<u32>),
+    /// no command name: status of the last command substitution in the words, in the redirections,
+    /// in the assignments
+    Absent(Option<u32>, Option<u32>, Option<u32>),
     Call(&'static str),
     Unknown,
     Tick(u32, u32),
@@ -109,9 +110,9 @@ fn sx_cmd(c: &Cmd) -> String {
         Cmd::Exit(Some(n)) => format!("(exit {n})"),
         Cmd::SetE(b) => format!("(sete {})", *b as u8),
         Cmd::SetM(b) => format!("(setm {})", *b as u8),
-        Cmd::Absent(w, a) => {
+        Cmd::Absent(w, r, a) => {
             let f = |x: &Option<u32>| x.map_or("-".to_string(), |n| n.to_string());
-            format!("(abs {} {})", f(w), f(a))
+            format!("(abs {} {} {})", f(w), f(r), f(a))
         }
         Cmd::Call(n) => format!("(call {})", sx_name(n)),
         Cmd::Unknown => "(unk)".into(),
@@ -285,11 +286,11 @@ fn to_cmd(x: &Sx) -> Option<Cmd> {
         ("exit", 2) => Cmd::Exit(Some(num(&v[1])?)),
         ("sete", 2) => Cmd::SetE(num(&v[1])? != 0),
         ("setm", 2) => Cmd::SetM(num(&v[1])? != 0),
-        ("abs", 3) => {
+        ("abs", 4) => {
             let f = |x: &Sx| -> Option<Option<u32>> {
                 if atom(x)? == "-" { Some(None) } else { Some(Some(num(x)?)) }
             };
-            Cmd::Absent(f(&v[1])?, f(&v[2])?)
+            Cmd::Absent(f(&v[1])?, f(&v[2])?, f(&v[3])?)
         }
         ("call", 2) => Cmd::Call(name(&v[1])?),
         ("unk", 1) => Cmd::Unknown,
@@ -473,7 +474,7 @@ impl Render {
             Cmd::Exit(Some(n)) => self.simple(&["exit".into(), n.to_string()]),
             Cmd::SetE(true) => self.simple(&["set".into(), "-e".into()]),
             Cmd::SetE(false) => self.simple(&["set".into(), "+e".into()]),
-            Cmd::Absent(w, a) => {
+            Cmd::Absent(w, r, a) => {
                 // assignments first, then words that expand to no field; plain ones may be mixed in
                 let mut parts: Vec<String> = vec![];
                 match a {
@@ -497,6 +498,26 @@ impl Render {
                     if self.rng.chance(1, 3) {
                         parts.push("$unset_e".into());
                     }
+                }
+                // redirections that succeed: performed in a subshell, they change nothing but `$?`
+                // when they hold a command substitution
+                match r {
+                    Some(n) => {
+                        if self.rng.chance(1, 3) {
+                            let at = self.rng.below(parts.len() + 1);
+                            parts.insert(at, format!("3<$(st {})/dev/null", self.rng.below(4)));
+                        }
+                        // the last redirection with a command substitution decides
+                        parts.push(format!("<$(st {n})/dev/null"));
+                        if self.rng.chance(1, 3) {
+                            parts.push("4</dev/null".into());
+                        }
+                    }
+                    None if self.rng.chance(1, 3) => {
+                        let at = self.rng.below(parts.len() + 1);
+                        parts.insert(at, (*self.rng.pick(&["</dev/null", "3</dev/null"])).into());
+                    }
+                    None => {}
                 }
                 self.out.push_str(&parts.join(" "));
             }
@@ -706,6 +727,9 @@ readonly ro=0\n";
 
 pub fn render_with(seed: u64, lines: &[Line], real: bool) -> String {
     let mut r = Render { rng: Rng::new(seed ^ 0x5EED), out: String::new(), real };
+    if lines.is_empty() {
+        return (*r.rng.pick(&["", "\n", "# nothing\n", "   \n\n", "# a\n# b"])).to_string();
+    }
     for l in lines {
         match l {
             Line::Cmds(l) => r.list(l),
@@ -808,8 +832,9 @@ impl Gen {
             87 => {
                 let o = |g: &mut Gen| if g.rng.chance(1, 2) { Some(g.rng.below(4) as u32) } else { None };
                 let w = o(self);
+                let r = if self.rng.chance(1, 2) { None } else { o(self) };
                 let a = o(self);
-                Cmd::Absent(w, a)
+                Cmd::Absent(w, r, a)
             }
             88..=89 => Cmd::SetE(self.rng.chance(1, 2)),
             90 => Cmd::SetM(self.rng.chance(2, 3)),
@@ -962,6 +987,10 @@ impl Gen {
         }
     }
     pub fn script(&mut self) -> Vec<Line> {
+        if self.rng.chance(1, 60) {
+            // nothing to execute at all (rendered as an empty or comment-only script): status 0
+            return vec![];
+        }
         let nlines = 1 + self.rng.below(4);
         let mut lines = vec![];
         if self.rng.chance(1, 5) {
@@ -1068,6 +1097,8 @@ pub fn observe(seed: u64, lines: &[Line]) -> String {
                 inode.permissions.set(Mode::USER_EXEC, true);
                 state.borrow_mut().file_system.save(path, Rc::new(RefCell::new(inode))).unwrap();
             }
+            // something to read for redirections that must succeed
+            crate::shell::write_file(state, "/dev/null", b"");
             let mut path = env.variables.get_or_new("PATH", Scope::Global);
             let _ = path.assign("/nonexistent:/bin", None);
             // a read-only variable for `(asgerr)`
